@@ -81,6 +81,7 @@ func plan(tier string, seed int64) []driver.Case {
 			}
 		}
 	}
+	cases = append(cases, sharedPlan(tier)...)
 	return cases
 }
 
@@ -409,6 +410,9 @@ func runAlone(p params, em []emission) ([]int, bool) {
 // ---------------------------------------------------------------- one case
 
 func runCase(c driver.Case) driver.Result {
+	if c.Get("kind") == "shared" {
+		return runShared(c)
+	}
 	rec.ResetHooks()
 	hookReset()
 	widen.Store(c.Get("widen") == "1")
